@@ -34,7 +34,7 @@ RULE = ("(1) docstring texts: all sequences of length <= N over a %d-token alpha
         "whitespace-only lines, headers without bodies, truncated tokens) and hostile original docstrings, emitted as "
         "docstring / function / class in 3 styles x indent levels 0..2 and parsed back; (3) generated modules x doctrans "
         "applied 1..3 times; non-trivial = non-empty input" % len(docgen.TOKEN_ALPHABET))
-REQUIRED_MONITORS = ("steps.docstring.parse", "steps.docstring.emit", "steps.function.emit", "steps.doctrans",
+REQUIRED_MONITORS = ("steps.docstring.parse", "steps.docstring.emit", "steps.function.emit", "steps.argparse.emit", "steps.doctrans",
                      "steps.cst_parse", "growth.compared")
 ASSUMPTIONS = [
     "growth is bounded as steps(2k) <= 2.5 * steps(k) * (chars(2k)/chars(k))^2 on four input families (nested definitions, "
@@ -52,7 +52,10 @@ BLOCK = 200
 HOSTILE = ["", " ", "   ", "\n", "\n\n", "   \n", "   \nSummary", "\n   \n   \nSummary line", "\t\n\tx", ":param", ":param x",
            ":param x:", ":type", ":type x: ```", "Args:", "Args:\n", "Returns:", "Returns:\n  ", "Parameters\n----------",
            "Parameters\n----------\n", "Returns\n-------\n", "Raises:\n", "```", "``` ```", "x :", ":", ":return:", ":rtype:",
-           "Defaults to", "Defaults to ```", "Summary\n\n   \n", "  \n  \n  \nx\n  \n", "\r\n", " \n \n \n \n \n"]
+           "Defaults to", "Defaults to ```", "Summary\n\n   \n", "  \n  \n  \nx\n  \n", "\r\n", " \n \n \n \n \n",
+           # what a formatter, a template engine or a regular expression would interpret
+           "%", "50% is typical", "drop 50%", "%s", "%(default)s", "100%% sure", "{", "}", "{}", "{0", "\\", "\\1", "(", "[", "*",
+           "a|b", "$", "^", "?", "'", '"', "#", ";", ",", ".", "..", "..."]
 
 
 def budget_linear(n):
@@ -254,8 +257,14 @@ def run_case(ctx, P, stream, idx):
                 if o == "returned" and isinstance(text, str):
                     monitored(P, "docstring.parse", lambda: cdd.docstring.parse.docstring(text), len(text) + size,
                               budget_linear, dict(w, text=text))
-            for fmt, label in (("function", "function.emit"), ("class", "class.emit")):
-                kw = {"docstring_format": style}
+            # every public emitter (and the parser of what it wrote) meets the same prose
+            for fmt, label in (("function", "function.emit"), ("class", "class.emit"), ("argparse", "argparse.emit"),
+                               ("pydantic", "pydantic.emit"), ("json_schema", "json_schema.emit"),
+                               ("sqlalchemy", "sqlalchemy.emit"), ("sqlalchemy_table", "sqlalchemy_table.emit"),
+                               ("sqlalchemy_hybrid", "sqlalchemy_hybrid.emit")):
+                if fmt == "json_schema" and style != "rest":
+                    continue  # (this emitter has no docstring style)
+                kw = {} if fmt == "json_schema" else {"docstring_format": style}
                 o, res = monitored(P, label, lambda: hops.emit(ir, fmt, **kw), size, budget_linear, dict(w, ir=ir, fmt=fmt, kw=kw))
                 if o == "returned":
                     src = res[1]
